@@ -386,14 +386,18 @@ Qed.
 
 (* ================================================================== B2. the text of Route headers on the grammar domain *)
 (* what the judge reads in one header the model holds: the printed value, as j_header trims it
-   after ": ", cut at the commas, each piece trimmed *)
+   after ": ", cut at the commas, each piece trimmed (both ends like strings.TrimSpace: SpecProxy.j_flat) *)
 Definition hT (h : header) : list bytes :=
-  map trim_space (split_byte ","%char (trim_space_go (" "%char :: hval_print (h_val h)))).
+  map trim_space_go (split_byte ","%char (trim_space_go (" "%char :: hval_print (h_val h)))).
 Definition tview (hs : list header) : list bytes := flat_map hT hs.
 
 (* an element whose text does not begin with white space (ASCII or Unicode): no blank in front of
-   the display name.  Needed for every element that may become the first of a re-encoded header:
-   the judge reads header values through strings.TrimSpace *)
+   the display name.  Then the text the judge reads for the element ([j_flat]: both ends of every entry
+   trimmed like strings.TrimSpace, wherever the entry stands in its header value) IS [rp_relem r],
+   which is how the statements below identify it ([trim_relem], [hT_good]).  (Before j_flat trimmed
+   the left end of every entry that way the condition was needed for the verdict itself: an element
+   that follows a comma may become the first of a re-encoded header, and header values are read
+   through strings.TrimSpace.) *)
 Definition lead_ok (r : a_relem) : bool := lstuck usp2 usp3 (rp_relem r).
 
 Definition good_list (l : list a_relem) : Prop :=
@@ -424,15 +428,34 @@ Proof.
   - cbn [app]. apply H. apply in_rev. rewrite E. left. reflexivity.
 Qed.
 
-Lemma trim_relem r : wf_relem r = true -> lead_ok r = true -> trim_space (rp_relem r) = rp_relem r.
+(* the right end of the text of a well-formed element: '>' or a parameter tail that does not end with
+   white space, ASCII ([wf_param]) or Unicode ([wf_relem]); TrimSpace leaves it alone *)
+Lemma rclean_relem r : wf_relem r = true -> C07_bridge.rclean (rp_relem r).
 Proof.
-  intros W L. destruct (wf_relem_parts r W) as [Hn Hps]. apply trim_space_fix.
-  - unfold lead_ok, lstuck in L. destruct (rp_relem r) as [|c t]; [exact I|].
-    apply andb_true_iff in L. destruct L as [L _]. apply negb_true_iff in L. exact L.
-  - unfold rp_relem. rewrite rp_nameaddr_app. apply rev_head_nospace; [discriminate|].
-    intros c [<-|Ic]; [reflexivity|]. apply pm_char_nospace.
-    pose proof (rp_params_pm _ Hps) as F. rewrite forallb_forall in F. exact (F c Ic).
+  intros W. destruct (wf_relem_parts r W) as [Hn Hps]. pose proof (wf_relem_tail r W) as NU.
+  unfold rp_relem. rewrite rp_nameaddr_app.
+  destruct (ar_params r) as [|p ps] eqn:EP.
+  - cbn [rp_params flat_map]. apply C07_bridge.rclean_ascii_end; reflexivity.
+  - change (rp_params (p :: ps)) with (";"%char :: (rp_param p ++ rp_params ps)) in *.
+    set (X := rp_param p ++ rp_params ps) in *.
+    assert (NX : X <> []).
+    { cbn [forallb] in Hps. apply andb_true_iff in Hps. destruct Hps as [Hp _].
+      apply C14_via.wf_param_inv in Hp. destruct Hp as (Hk & _). unfold X, rp_param.
+      destruct (ap_key p) as [|k0 kr] eqn:EK; [exfalso; apply Hk; reflexivity|].
+      destruct (ap_val p); discriminate. }
+    replace ((an_display (ar_na r) ++ "<"%char :: rp_addr (an_addr (ar_na r))) ++ ">"%char :: ";"%char :: X)
+      with (((an_display (ar_na r) ++ "<"%char :: rp_addr (an_addr (ar_na r))) ++ [">"%char]) ++ ";"%char :: X)
+      by (rewrite <- app_assoc; reflexivity).
+    apply (C07_bridge.rclean_sep X ";"%char [] _ NX eq_refl). cbn [app].
+    unfold C07_bridge.rclean, lstuck. unfold ends_with_uspace in NU. rewrite NU.
+    destruct (rev (";"%char :: X)) as [|c t] eqn:ER; [reflexivity|].
+    cbn [negb]. rewrite andb_true_r. apply negb_true_iff. apply pm_char_nospace.
+    pose proof (rp_params_pm _ Hps) as F. rewrite forallb_forall in F. apply F.
+    change (In c (";"%char :: X)). apply in_rev. rewrite ER. left. reflexivity.
 Qed.
+
+Lemma trim_relem r : wf_relem r = true -> lead_ok r = true -> trim_space_go (rp_relem r) = rp_relem r.
+Proof. intros W L. apply C07_bridge.trim_fix_iff. split; [exact L|exact (rclean_relem r W)]. Qed.
 
 Lemma rp_relem_len r : wf_relem r = true -> (3 <= List.length (rp_relem r))%nat.
 Proof.
@@ -562,7 +585,7 @@ Proof. solve_disj. Qed.
 Lemma j_flat_emitted mo :
   j_flat is_route (map (fun h => jpair (hpair h)) (emitted_headers mo)) = tview (RS mo).
 Proof.
-  unfold emitted_headers, j_flat, RS, tview, sel, is_cl_h. rewrite map_app, flat_map_app.
+  unfold emitted_headers, j_flat, j_entries, RS, tview, sel, is_cl_h. rewrite map_app, flat_map_app.
   cbn [map flat_map]. change (is_route (fst (jpair (hpair (cl_header mo))))) with false. cbv iota.
   cbn [app]. rewrite app_nil_r.
   induction (m_headers mo) as [|h r IH]; [reflexivity|].
@@ -638,7 +661,7 @@ Qed.
 Lemma j_flat_input jhs hl : Forall2 hrel2 jhs hl -> j_flat is_route jhs = tview (sel (s2b "Route") hl).
 Proof.
   induction 1 as [|p h jhs hl (En & Ev & Et) F IH]; [reflexivity|].
-  unfold j_flat, tview, sel in *. cbn [flat_map filter]. rewrite En, <- (same_header_route (h_name h)).
+  unfold j_flat, j_entries, tview, sel in *. cbn [flat_map filter]. rewrite En, <- (same_header_route (h_name h)).
   destruct (same_header (h_name h) (s2b "Route")); [|exact IH].
   cbn [flat_map]. rewrite IH. f_equal. unfold hT. rewrite Ev. cbn [hval_print].
   rewrite trim_space_go_sp by reflexivity. rewrite Et. reflexivity.
@@ -1199,6 +1222,34 @@ Proof.
            0%nat C01.ex_lc (s2b "10.0.0.9") 5070%Z b13_req [] jin (parsed b13_req) []
            b13_hyp_listener J b13_hyp_parse b13_hyp_request b13_hyp_routes HV Hsrc Hbr Ha Hu Ht HLn Hrun).
 Qed.
+
+(* A Route entry in the MIDDLE of a comma list whose text ends with U+00A0 (bytes C2 A0).  parseRouteParam
+   applies strings.TrimSpace to the text after '>', so the re-encoded entry has lost the two bytes: the relay
+   is right.  The judge reads both ends of every Route entry like strings.TrimSpace (SpecProxy.j_flat) and
+   accepts; its former reader (ASCII blanks only at the ends of an entry, TrimSpace only around the whole
+   header value) kept the two bytes on the input side and answered 1 on this run.  The request is outside
+   [route_domain_in] ([wf_relem] excludes a parameter tail that ends with Unicode white space). *)
+Definition b13_nbsp : bytes := [ascii_of_nat 194; ascii_of_nat 160].
+Definition b13u_req : bytes :=
+  s2b "INVITE sip:bob@elsewhere.example SIP/2.0" ++ crlf ++
+  s2b "Route: <sip:10.0.0.9:5070;lr>,<sip:mid.example.com;lr>" ++ b13_nbsp ++ s2b ",<sip:far.example.com;lr>" ++ crlf ++
+  C01.ex_common.
+Definition b13u_ev : event := EvUdp 0 (s2b "10.0.0.9") 5070%Z b13u_req.
+Definition b13u_outs : list output :=
+  match proxy_step all_fixed (pc_cfg b13_pc) 1000 (branch_of 0) C01.ex_st b13u_ev with Ok (_, outs) => outs | _ => [] end.
+Example b13u_routes :
+  map (fun o => fst (labelled o)) b13u_outs = [s2b "udp:10.0.0.9:5070"] /\
+  map (fun o => option_map (fun om => j_flat is_route (jm_headers om)) (j_read (snd o))) b13u_outs
+    = [Some [s2b "<sip:mid.example.com;lr>"; s2b "<sip:far.example.com;lr>"]] /\
+  option_map (fun jin => j_flat is_route (jm_headers jin)) (j_read b13u_req)
+    = Some [s2b "<sip:10.0.0.9:5070;lr>"; s2b "<sip:mid.example.com;lr>"; s2b "<sip:far.example.com;lr>"] /\
+  option_map (fun jin => j_entries trim_space is_route (jm_headers jin)) (j_read b13u_req)
+    = Some [s2b "<sip:10.0.0.9:5070;lr>"; s2b "<sip:mid.example.com;lr>" ++ b13_nbsp; s2b "<sip:far.example.com;lr>"].
+Proof. repeat split; vm_compute; reflexivity. Qed.
+Example b13u_judged :
+  judge_C13_event b13_pc (js_init C01.ex_cfg) b13u_ev
+    (map labelled (filter (visible (pc_udp_endpoints b13_pc)) b13u_outs)) [] = 0%nat.
+Proof. vm_compute. reflexivity. Qed.
 
 Print Assumptions C13_route_headers.
 Print Assumptions own_agree.
